@@ -1,5 +1,5 @@
 (** C10/Proofs.v — lemmas behind C10/Props.v. *)
-From EV Require Import Base.StoreSM C33.Model C33.Spec C33.Lemmas C33.Proofs C08.Module C08.PropertyModel C08.SimpleModels C10.TypeModel.
+From EV Require Import Base.StoreSM C33.Model C33.Spec C33.Lemmas C33.Proofs C08.Module C08.PropertyModel C08.SimpleModels C08.RefModel C10.TypeModel.
 Local Open Scope N_scope.
 
 Lemma remove_no_mention : forall (c : cfg) (ops : list (hop mfacts)) (f : N),
@@ -108,6 +108,31 @@ Proof.
   - destruct (H ids (mkTidx (ndelN f (t_ns s)) (ndelN f (t_using s)) (ndelN f (t_ftypes s)) (t_decls s) (t_supers s) (t_names s))) as [A [B C]].
     rewrite A, B, C. cbn [t_ns t_using t_ftypes]. rewrite !nget_del, N.eqb_refl. auto.
   - cbn [t_ns t_using t_ftypes]. rewrite !nget_del, N.eqb_refl. auto.
+Qed.
+
+(** ---- LuaReferenceIndex (global_references / index_reference): after remove(f) no key lists f, no key is left empty ---- *)
+Lemma adel_no_key : forall (V : Type) f (m : list (N * V)), existsb (fun kv => fst kv =? f) (ndelN f m) = false.
+Proof.
+  induction m as [|[g l] m IH]; cbn [adel existsb]; [reflexivity|].
+  destruct (N.eqb_spec f g) as [->|Hne]; [exact IH|]. cbn [existsb fst].
+  destruct (N.eqb_spec g f); [congruence | exact IH].
+Qed.
+
+Lemma rmap_remove_no_mention : forall f m, rmap_mentions (rmap_remove f m) f = false.
+Proof.
+  intros f m. unfold rmap_mentions. induction m as [|[k files] m IH]; cbn [rmap_remove existsb]; [reflexivity|].
+  destruct (is_nil (ndelN f files)); [exact IH|]. cbn [existsb snd]. rewrite IH, orb_false_r. apply adel_no_key.
+Qed.
+
+Lemma reference_remove_no_mention : forall s f,
+  rmap_mentions (r_glob (r_remove f s)) f = false /\ rmap_mentions (r_idx (r_remove f s)) f = false.
+Proof. intros s f. split; apply rmap_remove_no_mention. Qed.
+
+Lemma reference_remove_no_empty : forall f m k files, In (k, files) (rmap_remove f m) -> files <> [].
+Proof.
+  induction m as [|[k0 fs] m IH]; intros k files Hin; cbn [rmap_remove] in Hin; [destruct Hin|].
+  destruct (ndelN f fs) as [|x r] eqn:E; cbn [is_nil] in Hin; [eauto|].
+  destruct Hin as [Heq|Hin]; [inversion Heq; discriminate | eauto].
 Qed.
 
 Lemma remove_example :
